@@ -69,7 +69,13 @@ def fn_source(text, name):
             if text[e_] != "(":
                 continue
         # the definition, not a trait's declaration (`fn f(..) -> T;`)
-        a, b = text.find("{", e_), text.find(";", e_)
+        pe, depth = e_, 0
+        while pe < len(text):                       # past the parameter list (a `;` inside it — `[u8; 32]` — is not the end of a declaration)
+            depth += {"(": 1, ")": -1}.get(text[pe], 0)
+            pe += 1
+            if depth == 0:
+                break
+        a, b = text.find("{", pe), text.find(";", pe)
         if a != -1 and (b == -1 or a < b):
             m = m_
             mend = e_
@@ -508,8 +514,8 @@ class Fn:
                         break
                 self.i = k                            # an attribute: no run-time meaning
                 continue
-            if tok == "{":
-                out += self.block(ind)                # a bare block: its statements, in place
+            if tok == "{" and not hit:
+                out += self.block(ind)                # a bare block: its statements, in place (unless the block as a whole is listed)
                 continue
             if tok in ("eprintln", "println") and self.peek(1) == "!":
                 depth, k = 0, self.i + 2
@@ -938,6 +944,108 @@ FUNCS = [
          verbatim=[("let mut buffer = vec![0u8; block_size];", "let mut buffer : List Nat := []"),
                    ("let mut bytes_read = 0;", "let mut bytes_read : Nat := 0"),
                    ("let data = &buffer[..bytes_read];", "let data := buffer.take bytes_read")]),
+    # ---- main.rs: `copia patch`
+    dict(group="delta", file="src/bin/copia/main.rs", name="validate_block_size", sig=None,
+         lean="def validateBlockSizeGen (size : Nat) : Bool := Id.run do\n  -- true = Ok(())", calls={}, paths={},
+         verbatim=[('if !size.is_power_of_two() { return Err(format!("Block size must be a power of 2, got {size}")); }', "if !(decide (2 ^ Nat.log2 size = size)) then\n  return false"),
+                   ('if !(512..=65536).contains(&size) { return Err(format!("Block size must be 512-65536, got {size}")); }', "if !(decide (512 ≤ size ∧ size ≤ 65536)) then\n  return false"),
+                   ("Ok(())", "return true")]),
+    dict(group="delta", file="src/bin/copia/main.rs", name="run_patch", sig=None,
+         lean="def runPatchGen {D : Type} [DecidableEq D] (H : List Nat → D) (deserialize : Option (Delta D)) (basis_bytes : Option (List Nat)) :\n"
+              "    Bool × Option (List Nat) := Id.run do\n"
+              "  -- world: what reading + `bincode::deserialize` of the delta file gives (none = either fails), the basis file's bytes (none = it cannot\n"
+              "  -- be opened), and the OUTPUT file (`out`: none = not created). Result: (the command exits 0, the output file)\n"
+              "  let mut out : Option (List Nat) := none",
+         calls={}, paths={},
+         verbatim=[('let output = output.unwrap_or_else(|| { let mut p = basis.clone(); p.set_extension("patched"); p });', ""),
+                   ("let delta_data = tokio::fs::read(delta).await?;", ""),
+                   ("let delta: copia::Delta = bincode::deserialize(&delta_data)?;", "let some delta := deserialize | return (false, out)"),
+                   ("validate_block_size(delta.block_size as usize)?;", "if !(validateBlockSizeGen delta.blockSize) then\n  return (false, out)"),
+                   ("let sync = AsyncCopiaSync::with_block_size(delta.block_size as usize);", ""),
+                   ("let basis_file = tokio::fs::File::open(basis).await?;", "let some basis_file := basis_bytes | return (false, out)"),
+                   ("let output_file = tokio::fs::File::create(&output).await?;", "out := some []"),
+                   ("sync.patch(basis_file, &delta, output_file).await?;",
+                    "let r := Copia.Delta.patch H true basis_file delta\nout := some r.2\nif r.1 != Copia.Delta.PatchResult.ok then\n  return (false, out)"),
+                   ("Ok(())", "return (true, out)")]),
+    dict(group="delta", file="src/bin/copia/main.rs", name="run_signature", sig=None,
+         lean="def runSignatureGen {D : Type} (H : List Nat → D) (block_size : Nat) (file_bytes : Option (List Nat)) : Bool × Option (Signature D) := Id.run do\n"
+              "  -- world: the input file's bytes (none = it cannot be opened) and the OUTPUT file, as the value `bincode::serialize` is given (`out`: none = not written)\n"
+              "  let mut out : Option (Signature D) := none",
+         calls={}, paths={},
+         verbatim=[("validate_block_size(block_size)?;", "if !(validateBlockSizeGen block_size) then\n  return (false, out)"),
+                   ('let output = output.unwrap_or_else(|| { let mut p = file.clone(); p.set_extension("sig"); p });', ""),
+                   ("let sync = AsyncCopiaSync::with_block_size(block_size);", ""),
+                   ("let file_handle = tokio::fs::File::open(file).await?;", "let some file_handle := file_bytes | return (false, out)"),
+                   ("let reader = tokio::io::BufReader::new(file_handle);", ""),
+                   ("let signature = sync.signature(reader).await?;", "let signature := Copia.Delta.signature H block_size file_handle"),
+                   ("let serialized = bincode::serialize(&signature)?;", ""),
+                   ("tokio::fs::write(&output, serialized).await?;", "out := some signature"),
+                   ("Ok(())", "return (true, out)")]),
+    dict(group="delta", file="src/bin/copia/main.rs", name="run_delta", sig=None,
+         lean="def runDeltaGen {D : Type} [DecidableEq D] (H : List Nat → D) (deserialize : Option (Signature D)) (source_bytes : Option (List Nat)) :\n"
+              "    Bool × Option (Delta D) := Id.run do\n"
+              "  -- world: what reading + `bincode::deserialize` of the signature file gives, the source file's bytes, and the OUTPUT file as the value serialised\n"
+              "  let mut out : Option (Delta D) := none",
+         calls={}, paths={},
+         verbatim=[('let output = output.unwrap_or_else(|| { let mut p = source.clone(); p.set_extension("delta"); p });', ""),
+                   ("let sig_data = tokio::fs::read(signature).await?;", ""),
+                   ("let sig: copia::Signature = bincode::deserialize(&sig_data)?;", "let some sig := deserialize | return (false, out)"),
+                   ("validate_block_size(sig.block_size)?;", "if !(validateBlockSizeGen sig.blockSize) then\n  return (false, out)"),
+                   ("let sync = AsyncCopiaSync::with_block_size(sig.block_size);", ""),
+                   ("let file_handle = tokio::fs::File::open(source).await?;", "let some file_handle := source_bytes | return (false, out)"),
+                   ("let reader = tokio::io::BufReader::new(file_handle);", ""),
+                   ("let delta = sync.delta(reader, &sig).await?;", "let delta := Copia.Delta.delta H sig file_handle"),
+                   ("let serialized = bincode::serialize(&delta)?;", ""),
+                   ("tokio::fs::write(&output, serialized).await?;", "out := some delta"),
+                   ("Ok(())", "return (true, out)")]),
+    # ---- delta.rs: the two counters every report and C16's bound read
+    dict(group="delta", file="src/delta.rs", name="bytes_matched", sig=None,
+         lean="def bytesMatchedGen (ops : List Op) : Nat := Id.run do", calls={}, paths={},
+         verbatim=[("self.ops .iter() .filter_map(|op| match op { DeltaOp::Copy { len, .. } => Some(u64::from(*len)), DeltaOp::Literal(_) => None, }) .sum()",
+                    "return (ops.filterMap fun op => match op with\n  | Op.copy _ len => some len\n  | Op.literal _ => none).sum")]),
+    dict(group="delta", file="src/delta.rs", name="bytes_literal", sig=None,
+         lean="def bytesLiteralGen (ops : List Op) : Nat := Id.run do", calls={}, paths={},
+         verbatim=[("self.ops .iter() .filter_map(|op| match op { DeltaOp::Literal(data) => Some(data.len() as u64), DeltaOp::Copy { .. } => None, }) .sum()",
+                    "return (ops.filterMap fun op => match op with\n  | Op.literal data => some data.length\n  | Op.copy _ _ => none).sum")]),
+    # ---- async_sync.rs::sync_files: the single-file `copia sync SRC DST`
+    dict(group="delta", file="src/async_sync.rs", name="sync_files", sig=None, option=True, no_loop=True,
+         lean="def syncFilesGen {D : Type} [DecidableEq D] (H : List Nat → D) (block_size : Nat) (source_data : List Nat) (dst : Option (List Nat)) :\n"
+              "    Option (List Nat × Nat × Nat) := Id.run do\n"
+              "  -- world: the destination file (`dest`; none = absent) and the source's bytes; reads and writes succeed (their `?` are the only other exits).\n"
+              "  -- Result: the destination's content afterwards, bytes_matched, bytes_literal; none = the function returns an error, destination untouched\n"
+              "  let mut dest := dst",
+         calls={}, paths={},
+         verbatim=[("use crate::sync::Sync;", ""), ("use std::io::Cursor;", ""),
+                   ("let source_path = source_path.as_ref();", ""), ("let dest_path = dest_path.as_ref();", ""),
+                   ("let dest_exists = tokio::fs::try_exists(dest_path).await.unwrap_or(false);", "let dest_exists := dest.isSome"),
+                   ("if !dest_exists { let source_data = tokio::fs::read(source_path).await?; let source_size = source_data.len() as u64; tokio::fs::write(dest_path, &source_data).await?; "
+                    '#[cfg(feature = "tracing")] { tracing::Span::current().record("source_size", source_size); tracing::Span::current().record("basis_size", 0_u64); '
+                    'tracing::Span::current().record("bytes_matched", 0_u64); tracing::Span::current().record("bytes_literal", source_size); } '
+                    "return Ok(SyncResult { bytes_matched: 0, bytes_literal: source_size, source_size, basis_size: 0, }); }",
+                    "if !dest_exists then\n  let source_size := source_data.length\n  dest := some source_data\n  return (some (source_data, 0, source_size))"),
+                   ("let source_data = tokio::fs::read(source_path).await?;", ""),
+                   ("let basis_data = tokio::fs::read(dest_path).await?;", "let some basis_data := dest | return none"),
+                   ("let source_size = source_data.len() as u64;", "let source_size := source_data.length"),
+                   ("let basis_size = basis_data.len() as u64;", ""),
+                   ("if source_data == basis_data { "
+                    '#[cfg(feature = "tracing")] { tracing::Span::current().record("source_size", source_size); tracing::Span::current().record("basis_size", basis_size); '
+                    'tracing::Span::current().record("bytes_matched", source_size); tracing::Span::current().record("bytes_literal", 0_u64); } '
+                    "return Ok(SyncResult { bytes_matched: source_size, bytes_literal: 0, source_size, basis_size, }); }",
+                    "if source_data == basis_data then\n  return (some (basis_data, source_size, 0))"),
+                   ("let signature = crate::Signature::generate(&mut Cursor::new(&basis_data), self.config.block_size)?;", "let signature := Copia.Delta.signature H block_size basis_data"),
+                   ("let sync = crate::CopiaSync::with_block_size(self.config.block_size);", ""),
+                   ("let delta = sync.delta(Cursor::new(&source_data), &signature)?;", "let delta := Copia.Delta.delta H signature source_data"),
+                   ("let bytes_matched = delta.bytes_matched();", "let bytes_matched := Copia.Delta.matchedBytes delta.ops"),
+                   ("let bytes_literal = delta.bytes_literal();", "let bytes_literal := Copia.Delta.literalBytes delta.ops"),
+                   ("let mut output = Vec::with_capacity(source_data.len());", ""),
+                   ("sync.patch(Cursor::new(&basis_data), &delta, &mut output)?;",
+                    "let output ← match Copia.Delta.patch H true basis_data delta with\n  | (Copia.Delta.PatchResult.ok, out) => pure out\n  | _ => return none"),
+                   ('let temp_path = dest_path.with_extension("copia.tmp");', ""),
+                   ("tokio::fs::write(&temp_path, &output).await?;", ""),
+                   ("tokio::fs::rename(&temp_path, dest_path).await?;", "dest := some output"),
+                   ('{ tracing::Span::current().record("source_size", source_size); tracing::Span::current().record("basis_size", basis_size); '
+                    'tracing::Span::current().record("bytes_matched", bytes_matched); tracing::Span::current().record("bytes_literal", bytes_literal); }', ""),
+                   ("Ok(SyncResult { bytes_matched, bytes_literal, source_size, basis_size, })", "return (some (output, bytes_matched, bytes_literal))")]),
     # ---- signature.rs::SignatureTable: the two-level lookup the scans go through
     dict(group="delta", file="src/signature.rs", name="from_signature", sig=None,
          lean="def tableIndex {D : Type} (blocks : List (BlockSig D)) : List (Nat × List Nat) := Id.run do\n"
@@ -1128,6 +1236,24 @@ FUNCS = [
          verbatim=[("let canon = |p: &Path| std::fs::canonicalize(p).unwrap_or_else(|_| p.to_path_buf());", ""),
                    ("let mut h = blake3::Hasher::new();", "let mut h : List Nat := []"),
                    ('h.update(b"\\0");', "h := h ++ [0]")]),
+    dict(group="archive", file="src/bin/copia/archive.rs", name="load", sig=None, option=True, no_loop=True,
+         lean="def archiveLoadGen {A B : Type} (read : Option B) (from_slice : B → Option A) (format_version : A → Nat) (root_pair_hash : A → List Nat)\n"
+              "    (expected_pair : List Nat) : Option A := Id.run do\n"
+              "  -- world: what `std::fs::read(path)` gives (none = any error), serde's answer on those bytes (none = any error), the two members compared",
+         calls={}, paths={"FORMAT_VERSION": "Copia.Gen.archiveFormatVersion"},
+         verbatim=[("let bytes = std::fs::read(path).ok()?;", "let some bytes := read | return none"),
+                   ("let a: Self = serde_json::from_slice(&bytes).ok()?;", "let some a := from_slice bytes | return none"),
+                   ("if a.format_version == FORMAT_VERSION && a.root_pair_hash == expected_pair { Some(a) } else { None }",
+                    "if format_version a == Copia.Gen.archiveFormatVersion && root_pair_hash a == expected_pair then\n  return (some a)\nelse\n  return none")]),
+    dict(group="archive", file="src/bin/copia/bidir.rs", name="run_bisync (from `let loaded = Archive::load(&apath, &pair);` to the no-base banner)", fn="run_bisync", sig=None,
+         slice=("let loaded = Archive::load(&apath, &pair);", ".map_or_else(FpMap::new, |z| z.entries.clone());"),
+         lean="def bisyncTrustGen {A E : Type} (load : Option A) (entries : A → List E) : Bool × List E := Id.run do\n"
+              "  -- world: `Archive::load`'s answer for this pair's archive file",
+         epilogue=["return (trust_base, base)"], calls={}, paths={},
+         verbatim=[("let loaded = Archive::load(&apath, &pair);", "let loaded := load"),
+                   ("let trust_base = loaded.is_some();", "let trust_base := loaded.isSome"),
+                   ("let base: FpMap = loaded .as_ref() .map_or_else(FpMap::new, |z| z.entries.clone());",
+                    "let base := match loaded with\n  | none => []\n  | some z => entries z")]),
     # ---- protocol.rs: the framed codec around `Message::encode` / `decode` and `FrameHeader`
     dict(group="codec", file="src/protocol.rs", name="write_message", sig=None, option=True, no_loop=True,
          lean="def writeMessageGen (message : Message) : Option Bytes := Id.run do\n"
@@ -1164,6 +1290,21 @@ FUNCS = [
                    ("reader.read_exact(&mut self.read_buf)?;", "let some (read_buf, rest2) := rdN header.length rest | return none"),
                    ("Message::decode(&self.read_buf)", "return (decodeMsg utf8 read_buf).map fun m => (m, rest2, alloc)")]),
     # ---- serve.rs::serve: the prologue, then the dispatch loop (handlers = the model's `handle`, translated on their own above)
+    dict(group="wire", file="src/bin/copia/wire.rs", name="write_frame", sig=None, option=True, no_loop=True,
+         lean="def writeFrameGen {T : Type} (into_writer : T → Option Copia.Hub.Bytes) (msg : T) : Option Copia.Hub.Bytes := Id.run do\n"
+              "  -- world: ciborium's answer for the message (none = it fails) and the bytes handed to the sink (which accepts them all)\n"
+              "  let mut out : Copia.Hub.Bytes := []",
+         calls={}, paths={},
+         verbatim=[("let mut buf = Vec::new();", ""),
+                   ("into_writer(msg, &mut buf) .map_err(|e| std::io::Error::new(std::io::ErrorKind::InvalidData, e.to_string()))?;",
+                    "let some buf := into_writer msg | return none"),
+                   ('let len = u32::try_from(buf.len()) .map_err(|_| std::io::Error::new(std::io::ErrorKind::InvalidData, "frame too large"))?;',
+                    "if buf.length ≥ 4294967296 then\n  return none\nlet len := buf.length"),
+                   ('if len > MAX_FRAME { return Err(std::io::Error::new( std::io::ErrorKind::InvalidData, "frame exceeds MAX_FRAME", )); }',
+                    "if decide (len > Copia.Gen.maxFrame) then\n  return none"),
+                   ("w.write_all(&len.to_be_bytes())?;", "out := out ++ Copia.WireSupport.be32enc len"),
+                   ("w.write_all(&buf)?;", "out := out ++ buf"),
+                   ("w.flush()", "return (some out)")]),
     dict(group="wire", file="src/bin/copia/wire.rs", name="read_magic", sig=None, option=True, no_loop=True,
          lean="def readMagic (inp : Copia.Hub.Bytes) : Option (Bool × Copia.Hub.Bytes) := Id.run do",
          idents={"MAGIC": "Copia.Gen.wireMagic"}, paths={}, calls={},
@@ -1205,7 +1346,202 @@ FUNCS = [
                    ("let fps = discover_local_fingerprints(root).unwrap_or_default();", ""),
                    ('let map = fps .into_iter() .filter(|(p, _)| !p.starts_with(".copia")) .map(|(p, f)| (p.to_string_lossy().into_owned(), f)) .collect();',
                     'let map := (tree.filter fun e => e.1.head? ≠ some ".copia".toList).map fun e => (e.1, hash e.2)')]),
+    dict(group="hubsync", file="src/bin/copia/hub.rs", name="hub_sync (the end: from `client.bye();` to the result)", fn="hub_sync", sig=None,
+         slice=("client.bye();", "re-run to reconcile\").into())"), slice_close=1,
+         lean="def hubSyncExitGen (conflicts : Nat) : Bool := Id.run do\n"
+              "  -- the function's result: true = Ok(()) (exit status 0), false = Err (exit status 1)",
+         calls={}, paths={},
+         verbatim=[("client.bye();", ""),
+                   ('if conflicts == 0 { Ok(()) } else { Err(format!("{conflicts} CAS conflict(s) — re-run to reconcile").into()) }',
+                    "if conflicts == 0 then\n  return true\nelse\n  return false")]),
+    # ---- hub.rs: the client side of one Put
+    dict(group="hubsync", file="src/bin/copia/hub.rs", name="put", sig=None,
+         lean="def clientPutGen {P H : Type} (metadata_len : Option Nat) (file_bytes : Option Copia.Hub.Bytes) (recv : Option (Copia.Hub.Reply H))\n"
+              "    (rel : P) (expected : Option H) (hash : H) : Option Bool × List (Copia.HubSync.Sent P H) := Id.run do\n"
+              "  -- world: `metadata(local)?.len()` (none = it fails), the bytes `File::open` + `io::copy` read (none = either fails),\n"
+              "  -- the hub's next reply (none = `recv` fails), and everything written to the hub's stdin so far (`sent`)\n"
+              "  let mut sent : List (Copia.HubSync.Sent P H) := []",
+         calls={}, paths={},
+         verbatim=[("let len = std::fs::metadata(local)?.len();", "let some len := metadata_len | return (none, sent)"),
+                   ("self.send(&Request::Put { path: rel.to_string(), expected, len, hash, })?;", "sent := sent ++ [Copia.HubSync.Sent.putFrame rel expected len hash]"),
+                   ("let mut f = std::fs::File::open(local)?;", "let some f := file_bytes | return (none, sent)"),
+                   ("std::io::copy(&mut f, &mut self.w)?;", "sent := sent ++ [Copia.HubSync.Sent.raw f]"),
+                   ("self.w.flush()?;", "sent := sent ++ [Copia.HubSync.Sent.flush]"),
+                   ('match self.recv()? { Response::PutResult { committed, .. } => Ok(committed), other => Err(std::io::Error::new( std::io::ErrorKind::InvalidData, format!("expected PutResult, got {other:?}"), )), }',
+                    "return (match recv with\n  | some (Copia.Hub.Reply.putResult committed _) => (some committed, sent)\n  | _ => (none, sent))")]),
+    # ---- incremental.rs: the delete list a push hands to the remote `xargs -0 rm`
+    dict(group="oneway", file="src/bin/copia/incremental.rs", name="apply_remote_deletes (the push list)", fn="apply_remote_deletes", sig=None,
+         slice=("let mut list = String::new();", 'let _ = write!(list, "{}/{}\\0", remote_root, rel.display());'), slice_close=1,
+         lean="def deleteListGen (remote_root : List Char) (dels : List (List Char)) : List Char := Id.run do",
+         epilogue=["return list"], calls={}, paths={},
+         verbatim=[("let mut list = String::new();", "let mut list : List Char := []"),
+                   ('for rel in dels { let _ = write!(list, "{}/{}\\0", remote_root, rel.display()); }',
+                    "for rel in dels do\n  list := list ++ (remote_root ++ '/' :: rel ++ ['\\x00'])")]),
+    # ---- incremental.rs: the orchestration of a local recursive run
+    dict(group="oneway", file="src/bin/copia/incremental.rs", name="run_local", sig=None,
+         lean="def runLocalGen {K C : Type} [DecidableEq K] (le : K → K → Bool) (excl : K → Bool) (delete_ dry_run : Bool)\n"
+              "    (S D : Copia.OneWay.Tree K C) : Copia.OneWay.Result K C := Id.run do\n"
+              "  -- world: the source tree and the destination tree (`dest`); a scan is the tree's metadata (the scans themselves: group `scan`),\n"
+              "  -- a delivery is `OneWay.deliver` (its calls: group `deliver`), `remove_file` is `tdel`; terminal output is not modelled\n"
+              "  let mut dest := D",
+         subst=[("opts.dry_run", "dry_run"), ("opts.delete", "delete_")],
+         paths={}, calls={"build_plan": lambda a: f"(Copia.Gen.Loops.buildPlan le excl {a[0]} {a[1]} {a[3]})",
+                          "Ok": lambda a: "OK"},
+         methods={"is_empty": lambda r, a: f"{r}.isEmpty"},
+         effects={"std::fs::remove_file": (False, lambda a: "dest := Copia.OneWay.tdel dest rel")},
+         block_heads=[dict(rust="for rel in &plan.transfer {", indent=2, before="for rel in plan.transfer do"),
+                      dict(rust="for rel in &plan.delete {", indent=2, before="for rel in plan.delete do")],
+         verbatim=[("let start = Instant::now();", ""),
+                   ("let src_meta = discover_local_with_meta(src)?;", "let src_meta := Copia.OneWay.metaOf S"),
+                   ('if src_meta.is_empty() && !delete_ { eprintln!("No files found."); return Ok(()); }',
+                    "if src_meta.isEmpty && !delete_ then\n  return { dest := dest, plan := { transfer := [], skipped := 0, delete := [] }, ranPlan := false }"),
+                   ("return Ok(());", "return { dest := dest, plan := plan, ranPlan := true }"),
+                   ("let dst_meta = discover_local_with_meta(dst).unwrap_or_default();", "let dst_meta := Copia.OneWay.metaOf D"),
+                   ("print_plan(&plan, dry_run);", ""),
+                   ("create_local_dirs(dst, &collect_dirs(&plan.transfer))?;", ""),
+                   ("let semaphore = Arc::new(Semaphore::new(opts.jobs));", ""),
+                   ("let progress = TransferProgress::new(plan.transfer.len() as u64);", ""),
+                   ("let mut handles = Vec::with_capacity(plan.transfer.len());", ""),
+                   ("let mtime = src_meta.get(rel).map(|m| m.mtime);", ""),
+                   ("let s = src.join(rel);", ""), ("let d = dst.join(rel);", ""), ("let sem = Arc::clone(&semaphore);", ""),
+                   ("let prog = progress.clone();", ""), ("let rel_disp = rel.display().to_string();", ""),
+                   ("handles.push(tokio::spawn(async move { let _permit = sem.acquire().await; match deliver_local(&s, &d, mtime).await { Ok(size) => prog.record_ok(size), Err(e) => prog.record_err(&rel_disp, &e), } }));",
+                    "dest := Copia.OneWay.deliver S dest rel"),
+                   ("join_handles(handles).await;", ""),
+                   ("report( start, &progress, &plan, &src.display().to_string(), &dst.display().to_string(), opts.verbose, )",
+                    "return { dest := dest, plan := plan, ranPlan := true }")]),
+    dict(group="oneway", file="src/bin/copia/incremental.rs", name="run_remote", sig=None,
+         lean="def runRemoteGen {K C : Type} [DecidableEq K] (le : K → K → Bool) (excl : K → Bool) (delete_ dry_run : Bool)\n"
+              "    (S D : Copia.OneWay.Tree K C) : Copia.OneWay.Result K C := Id.run do\n"
+              "  -- world: as for `run_local`, for either direction (`S` is the local tree on push, the remote one on pull); a delivery\n"
+              "  -- (`transfer_file_to_remote` / `deliver_pull`) is `OneWay.deliver`, `apply_remote_deletes` removes the listed paths\n"
+              "  let mut dest := D",
+         subst=[("opts.dry_run", "dry_run"), ("opts.delete", "delete_")],
+         paths={}, calls={"build_plan": lambda a: f"(Copia.Gen.Loops.buildPlan le excl {a[0]} {a[1]} {a[3]})",
+                          "Ok": lambda a: "OK"},
+         methods={"is_empty": lambda r, a: f"{r}.isEmpty"},
+         block_heads=[dict(rust="for rel in &plan.transfer {", indent=2, before="for rel in plan.transfer do")],
+         verbatim=[("let start = Instant::now();", ""),
+                   ('let (src_desc, dst_desc) = match dir { Dir::Push => ( local_root.display().to_string(), format!("{host}:{remote_root}"), ), '
+                    'Dir::Pull => ( format!("{host}:{remote_root}"), local_root.display().to_string(), ), };', ""),
+                   ("let (src_meta, dst_meta): (MetaMap, MetaMap) = match dir { Dir::Push => { let local = discover_local_with_meta(local_root)?; "
+                    "let remote = discover_remote_with_meta(host, remote_root) .await .unwrap_or_default(); (local, remote) } "
+                    "Dir::Pull => { let remote = discover_remote_with_meta(host, remote_root).await?; "
+                    "let local = discover_local_with_meta(local_root).unwrap_or_default(); (remote, local) } };",
+                    "let src_meta := Copia.OneWay.metaOf S\nlet dst_meta := Copia.OneWay.metaOf D"),
+                   ('if src_meta.is_empty() && !delete_ { eprintln!("No files found."); return Ok(()); }',
+                    "if src_meta.isEmpty && !delete_ then\n  return { dest := dest, plan := { transfer := [], skipped := 0, delete := [] }, ranPlan := false }"),
+                   ("return Ok(());", "return { dest := dest, plan := plan, ranPlan := true }"),
+                   ("print_plan(&plan, dry_run);", ""),
+                   ("let dirs = collect_dirs(&plan.transfer);", ""),
+                   ("match dir { Dir::Push => create_remote_dirs(host, remote_root, &dirs).await?, Dir::Pull => create_local_dirs(local_root, &dirs)?, }", ""),
+                   ("let semaphore = Arc::new(Semaphore::new(opts.jobs));", ""),
+                   ("let progress = TransferProgress::new(plan.transfer.len() as u64);", ""),
+                   ("let mut handles = Vec::with_capacity(plan.transfer.len());", ""),
+                   ("let mtime = src_meta.get(rel).map(|m| m.mtime);", ""),
+                   ('let remote_file = format!("{}/{}", remote_root, rel.display());', ""),
+                   ("let local_file = local_root.join(rel);", ""), ("let host = host.to_string();", ""), ("let sem = Arc::clone(&semaphore);", ""),
+                   ("let prog = progress.clone();", ""), ("let rel_disp = rel.display().to_string();", ""),
+                   ("handles.push(tokio::spawn(async move { let _permit = sem.acquire().await; let res = match dir { "
+                    "Dir::Push => transfer_file_to_remote(&local_file, &host, &remote_file, mtime).await, "
+                    "Dir::Pull => deliver_pull(&host, &remote_file, &local_file, mtime).await, }; "
+                    "match res { Ok(size) => prog.record_ok(size), Err(e) => prog.record_err(&rel_disp, &e), } }));",
+                    "dest := Copia.OneWay.deliver S dest rel"),
+                   ("join_handles(handles).await;", ""),
+                   ("apply_remote_deletes(dir, host, remote_root, local_root, &plan.delete).await;", "dest := plan.delete.foldl Copia.OneWay.tdel dest"),
+                   ("report(start, &progress, &plan, &src_desc, &dst_desc, opts.verbose)",
+                    "return { dest := dest, plan := plan, ranPlan := true }")]),
+    # ---- the 12 hex characters of conflict-copy names
+    dict(group="hubput", file="src/bin/copia/wire.rs", name="short_hash", sig=None,
+         lean="def shortHashGen (h : List Nat) : List Char := Id.run do",
+         calls={}, paths={}, epilogue=[],
+         verbatim=[("use std::fmt::Write as _;", ""),
+                   ("let mut out = String::with_capacity(12);", "let mut out : List Char := []"),
+                   ('for b in &h[..6] { let _ = write!(out, "{b:02x}"); }', "for b in h.take 6 do\n  out := out ++ Copia.HexSupport.hex2 b"),
+                   ("out", "return out")]),
+    dict(group="bidir", file="src/bin/copia/bidir.rs", name="short_hex", sig=None,
+         lean="def shortHexGen (h : List Nat) : List Char := Id.run do",
+         calls={}, paths={}, epilogue=[],
+         verbatim=[("use std::fmt::Write as _;", ""),
+                   ("let mut out = String::with_capacity(12);", "let mut out : List Char := []"),
+                   ('for b in &h[..6] { let _ = write!(out, "{b:02x}"); }', "for b in h.take 6 do\n  out := out ++ Copia.HexSupport.hex2 b"),
+                   ("out", "return out")]),
+    # ---- serve.rs: the commit lock bracket, the staging name, the CAS's view of the live file
+    dict(group="hubput", file="src/bin/copia/serve.rs", name="with_commit_lock", sig=None,
+         lean="def withCommitLockGen (open_ok lock_ok : Bool) : List LockCall × Bool := Id.run do\n"
+              "  -- world: the calls made, in order (`body` = the closure `f` runs), and whether the function returned Ok\n"
+              "  let mut calls : List LockCall := []",
+         calls={}, paths={},
+         verbatim=[('let lf = std::fs::OpenOptions::new() .create(true) .truncate(false) .write(true) .open(lockdir.join("commit.lock"))?;',
+                    "calls := calls ++ [LockCall.openLockFile true false true]\nif !open_ok then\n  return (calls, false)"),
+                   ("lf.lock_exclusive()?;", "calls := calls ++ [LockCall.lockExclusive]\nif !lock_ok then\n  return (calls, false)"),
+                   ("let out = f();", "calls := calls ++ [LockCall.body]"),
+                   ("let _ = fs2::FileExt::unlock(&lf);", "calls := calls ++ [LockCall.unlock]"),
+                   ("Ok(out)", "return (calls, true)")]),
+    dict(group="hubput", file="src/bin/copia/serve.rs", name="tmp_of", sig=None,
+         lean="def tmpOfGen (dst : List Char) (process_id : List Char) : List Char := Id.run do",
+         calls={}, paths={},
+         verbatim=[("let mut s = dst.as_os_str().to_owned();", "let mut s := dst"),
+                   ('s.push(format!(".{}.copia-tmp", std::process::id()));', "s := s ++ ('.' :: process_id ++ \".copia-tmp\".toList)"),
+                   ("PathBuf::from(s)", "return s")]),
+    dict(group="hubput", file="src/bin/copia/serve.rs", name="current_hash", sig=None,
+         lean="def currentHashGen {F H : Type} (fingerprint_path : Option F) (blake3 : F → H) : Option H := Id.run do\n"
+              "  -- world: what `fingerprint_path(dst)` gives (none = any error: absent, a directory, unreadable)",
+         calls={}, paths={},
+         verbatim=[("super::meta::fingerprint_path(dst).ok().map(|f| f.blake3)", "return fingerprint_path.map blake3")]),
+    # ---- transfer.rs: the walker itself
+    dict(group="scan", file="src/bin/copia/transfer.rs", name="discover_local_files", sig=None, option=True,
+         lean="def discoverFilesGen {P R : Type} (read_dir : P → Option (List (Option (Copia.ScanSupport.Ent P)))) (is_file : P → Bool)\n"
+              "    (strip_prefix : P → Option R) (le : R → R → Bool) (fuel : Nat) (root : P) : Option (Option (List R)) := Id.run do\n"
+              "  -- world: what `read_dir` gives for a directory (none = it fails; an entry is none when the iterator yields an error),\n"
+              "  -- each entry's own type (none = `file_type()` fails), whether a path FOLLOWED is a regular file, and `strip_prefix(root)`.\n"
+              "  -- outer none = fuel exhausted, inner none = the walk fails",
+         paths={"Vec::new": "[]"}, calls={"Ok": lambda a: f"(some {a[0]})"},
+         methods={"is_dir": lambda r, a: f"({r} == Copia.ScanSupport.FT.dir)", "is_symlink": lambda r, a: f"({r} == Copia.ScanSupport.FT.symlink)",
+                  "is_file": lambda r, a: f"({r} == Copia.ScanSupport.FT.file)" if r == "ft" else f"(is_file {r})"},
+         block_heads=[dict(rust="while let Some(dir) = dirs.pop() {", indent=4, loop=True,
+                           before="for _ in List.replicate fuel () do\n"
+                                  "  match dirs.getLast? with\n"
+                                  "  | none =>\n    @FIN@ := true\n    break\n"
+                                  "  | some dir =>\n    dirs := dirs.dropLast")],
+         verbatim=[("let mut dirs = vec![root.to_path_buf()];", "let mut dirs := [root]"),
+                   ("let entries = std::fs::read_dir(&dir)?;", "let some entries := read_dir dir | return (some none)"),
+                   ("let entry = entry?;", "let some entry := entry | return (some none)"),
+                   ("let path = entry.path();", "let path := entry.path"),
+                   ("let ft = entry.file_type()?;", "let some ft := entry.ft | return (some none)"),
+                   ("let rel = path.strip_prefix(root)?.to_path_buf();", "let some rel := strip_prefix path | return (some none)")]),
     # ---- meta.rs: the two local scans built on the walker
+    dict(group="scan", file="src/bin/copia/meta.rs", name="fingerprint_path", sig=None, option=True, no_loop=True,
+         lean="def fingerprintPathGen {D : Type} (H : List Nat → D) (symlink_metadata : Option Bool) (read_link : Option (List Nat)) (file_bytes : Option (List Nat)) :\n"
+              "    Option (Copia.Reconcile.Fp D) := Id.run do\n"
+              "  -- world: `symlink_metadata(full)` (none = it fails; some true = a symlink), `read_link(full)` (the target's bytes), and the bytes\n"
+              "  -- `File::open` + `io::copy` feed the hasher (none = either fails); `H` is BLAKE3",
+         calls={}, paths={},
+         verbatim=[("let meta = std::fs::symlink_metadata(full)?;", "let some is_symlink := symlink_metadata | return none"),
+                   ("if meta.file_type().is_symlink() { let target = std::fs::read_link(full)?; let h = blake3::hash(target.as_os_str().as_encoded_bytes()); "
+                    "Ok(Fingerprint { blake3: *h.as_bytes(), ftype: FileType::Symlink, }) } else { let mut hasher = blake3::Hasher::new(); "
+                    "let mut f = std::fs::File::open(full)?; std::io::copy(&mut f, &mut hasher)?; "
+                    "Ok(Fingerprint { blake3: *hasher.finalize().as_bytes(), ftype: FileType::File, }) }",
+                    "if is_symlink then\n  let some target := read_link | return none\n  return (some { digest := H target, ftype := Copia.Reconcile.FType.symlink })\n"
+                    "else\n  let some f := file_bytes | return none\n  return (some { digest := H f, ftype := Copia.Reconcile.FType.file })")]),
+    dict(group="scan", file="src/bin/copia/meta.rs", name="mtime_secs", sig=None,
+         lean="def mtimeSecsGen (modified : Copia.ScanSupport.MTime) : Int := Id.run do\n"
+              "  -- world: `meta.modified()` and `duration_since(UNIX_EPOCH)`: an error, or a time at / after the epoch (whole seconds, nanoseconds),\n"
+              "  -- or one BEFORE it (the distance to the epoch: whole seconds, nanoseconds)",
+         calls={}, paths={},
+         verbatim=[("let Ok(t) = meta.modified() else { return 0 };", "let t := modified\nif t == Copia.ScanSupport.MTime.err then\n  return 0"),
+                   ("match t.duration_since(UNIX_EPOCH) { Ok(d) => i64::try_from(d.as_secs()).unwrap_or(i64::MAX), "
+                    "Err(e) => { let d = e.duration(); let whole = i64::try_from(d.as_secs()).unwrap_or(i64::MAX); -whole - i64::from(d.subsec_nanos() > 0) } }",
+                    "match t with\n| Copia.ScanSupport.MTime.after secs _ => return (Copia.ScanSupport.toI64OrMax secs)\n"
+                    "| Copia.ScanSupport.MTime.before secs nanos =>\n  let whole := Copia.ScanSupport.toI64OrMax secs\n  return (-whole - (if nanos > 0 then 1 else 0))\n"
+                    "| Copia.ScanSupport.MTime.err => return 0")]),
+    dict(group="scan", file="src/bin/copia/meta.rs", name="set_local_mtime", sig=None,
+         lean="def setLocalMtimeGen (secs : Int) : Copia.ScanSupport.MTime := Id.run do\n"
+              "  -- the time handed to `set_modified` (opening the file for writing and the call itself succeed)",
+         calls={}, paths={},
+         verbatim=[("let t = if secs >= 0 { UNIX_EPOCH + Duration::from_secs(secs.unsigned_abs()) } else { UNIX_EPOCH - Duration::from_secs(secs.unsigned_abs()) };",
+                    "let t := if secs >= 0 then Copia.ScanSupport.MTime.after secs.natAbs 0 else Copia.ScanSupport.MTime.before secs.natAbs 0"),
+                   ("std::fs::File::options() .write(true) .open(path)? .set_modified(t)", "return t")]),
     dict(group="scan", file="src/bin/copia/meta.rs", name="discover_local_fingerprints", sig=None, option=True, no_loop=True,
          lean="def discoverFingerprints {P C : Type} [DecidableEq P] (discover_local_files : Option (List P)) (fingerprint_path : P → Option C) :\n"
               "    Option (List (P × C)) := Id.run do\n"
@@ -1239,6 +1575,17 @@ FUNCS = [
                    ("let mtime = mtime .split('.') .next() .and_then(|s| s.parse::<i64>().ok()) .unwrap_or(0);",
                     "let mtime := match Copia.Meta.splitOnChar '.' mtime with\n  | h :: _ => (Copia.Meta.parseI64 h).getD 0\n  | [] => 0"),
                    ('let rel = path.strip_prefix("./").unwrap_or(path);', "let rel := Copia.Meta.stripDotSlash path")]),
+    dict(group="scan", file="src/bin/copia/meta.rs", name="discover_remote_with_meta", sig=None, option=True, no_loop=True,
+         lean="def discoverRemoteGen (output_ : Option (Bool × List Char)) : Option (List (List Char × Copia.Plan.FileMeta)) := Id.run do\n"
+              "  -- world: what `Command::output()` gives for the listing command (the command string itself: `gen_constants.py`): none = ssh could\n"
+              "  -- not be run, else (exit status is success, the WHOLE of stdout)",
+         calls={"Ok": lambda a: a[0]}, paths={},
+         verbatim=[("let escaped = remote_root.replace('\\\\', \"\\\\\\\\\").replace('\\'', \"\\\\'\");", ""),
+                   ('let output = tokio::process::Command::new("ssh") .arg(host) .arg(format!( "CDPATH= cd $\'{escaped}\' && find . -type f -printf \'%s\\\\t%T@\\\\t%p\\\\0\'" )) .output() .await?;',
+                    "let some output := output_ | return none"),
+                   ('if !output.status.success() { let stderr = String::from_utf8_lossy(&output.stderr); return Err(format!("Failed to list {host}:{remote_root}: {stderr}").into()); }',
+                    "if !output.1 then\n  return none"),
+                   ("Ok(parse_remote_meta_output(&output.stdout))", "return (some (parseRemoteMetaGen output.2))")]),
     dict(group="hubsync", file="src/bin/copia/hub.rs", fn="hub_sync", sig=None,
          name="hub_sync (the push loop: from the counters to the end of the `for`)",
          slice=("let (mut sent, mut skipped, mut conflicts) = (0u64, 0u64, 0u64);", "hub kept a conflict-copy\");"), slice_close=2,
@@ -1290,6 +1637,23 @@ FUNCS = [
                     "steps := steps ++ DStep.openTmp :: chunks.map DStep.chunk"),
                    ('tokio::fs::rename(&tmp, dst) .await .map_err(|e| format!("rename {}: {e}", dst.display()))?;', "steps := steps ++ [DStep.publish]"),
                    ("let _ = set_local_mtime(dst, t);", "steps := steps ++ [DStep.stamp]")]),
+    dict(group="deliver", file="src/bin/copia/dir_sync.rs", name="transfer_file_from_remote", sig=None, option=True, no_loop=True,
+         lean="def pullStreamGen (spawn_ok stdout_ok create_ok : Bool) (copy : Option Nat) (flush_ok : Bool) (wait : Option Bool) : Option Nat := Id.run do\n"
+              "  -- world: whether ssh could be spawned, its stdout taken, the local file created; what `tokio::io::copy` returns (none = a read or a\n"
+              "  -- write failed); whether the final `flush` — which collects the result of the last write — succeeds; the child's exit (none = wait fails)",
+         calls={"Ok": lambda a: a[0]}, paths={},
+         verbatim=[("use tokio::io::AsyncWriteExt;", ""),
+                   ("let escaped = remote_path.replace('\\\\', \"\\\\\\\\\").replace('\\'', \"\\\\'\");", ""),
+                   ('let mut child = tokio::process::Command::new("ssh") .arg(host) .arg(format!("cat $\'{escaped}\'")) .stdout(std::process::Stdio::piped()) .stderr(std::process::Stdio::piped()) .spawn() .map_err(|e| format!("ssh spawn: {e}"))?;',
+                    "if !spawn_ok then\n  return none"),
+                   ('let mut stdout = child .stdout .take() .ok_or_else(|| "Failed to open SSH stdout".to_string())?;', "if !stdout_ok then\n  return none"),
+                   ('let mut file = tokio::fs::File::create(local_path) .await .map_err(|e| format!("create {}: {e}", local_path.display()))?;', "if !create_ok then\n  return none"),
+                   ('let written = tokio::io::copy(&mut stdout, &mut file) .await .map_err(|e| format!("stream {}: {e}", local_path.display()))?;', "let some written := copy | return none"),
+                   ('file.flush().await.map_err(|e| format!("flush: {e}"))?;', "if !flush_ok then\n  return none"),
+                   ("drop(stdout);", ""),
+                   ('let result = child .wait_with_output() .await .map_err(|e| format!("ssh wait: {e}"))?;', "let some status_success := wait | return none"),
+                   ('if !result.status.success() { let stderr = String::from_utf8_lossy(&result.stderr); return Err(format!("SSH failed for {remote_path}: {stderr}")); }',
+                    "if !status_success then\n  return none")]),
     dict(group="deliver", file="src/bin/copia/incremental.rs", name="deliver_pull",
          sig="fn deliver_pull( host: &str, remote_file: &str, local_dest: &Path, mtime: Option<i64>, ) -> Result<u64, String>",
          lean="def deliverPull (chunks : List Copia.Deliver.Bytes) (mtime : Option Int) : List DStep := Id.run do\n"
@@ -1383,22 +1747,23 @@ GROUP_HEAD = {
                   "open Copia.Reconcile (lookup dedupAdj)\nopen Copia.LoopSupport"),
     "plan": ("import Copia.Gen.Decisions\nimport Copia.Model.LoopSupport",
              "open Copia.Reconcile (lookup dedupAdj)\nopen Copia.Plan (trimEndSlash splitSlash)\nopen Copia.LoopSupport"),
-    "bidir": ("import Copia.Gen.Decisions\nimport Copia.Gen.LoopsReconcile\nimport Copia.Model.LoopSupport\nimport Copia.Model.BidirSupport",
+    "bidir": ("import Copia.Gen.Decisions\nimport Copia.Gen.LoopsReconcile\nimport Copia.Model.LoopSupport\nimport Copia.Model.BidirSupport\nimport Copia.Model.HexSupport",
               "open Copia.Reconcile (lookup dedupAdj)\nopen Copia.LoopSupport\nopen Copia.Bisync (cIns cDel)\nopen Copia.BidirSupport"),
     "hub": ("import Copia.Model.Hub", "open Copia.Hub (Comp components)"),
     "hubsync": ("import Copia.Model.HubSync", ""),
-    "archive": ("", ""),
-    "scan": ("import Copia.Model.ScanSupport\nimport Copia.Model.Meta", "open Copia.ScanSupport (StatRes)"),
+    "archive": ("import Copia.Gen.Constants", ""),
+    "scan": ("import Copia.Model.ScanSupport\nimport Copia.Model.Meta\nimport Copia.Model.Reconcile", "open Copia.ScanSupport (StatRes)"),
     "codec": ("import Copia.Model.Codec\nimport Copia.Gen.Decisions", "open Copia.Codec"),
     "wire": ("import Copia.Model.Hub\nimport Copia.Model.WireSupport", "open Copia.WireSupport (FrameRes)\nopen Copia.Hub (Req Reply Session Exit HTree)"),
-    "hubput": ("import Copia.Model.HubTrace\nimport Copia.Model.HubGetSolo\nimport Copia.Model.Hub", "open Copia.HubConc (Call Chunk Hash)\nopen Copia.HubGet (GCall)"),
+    "hubput": ("import Copia.Model.HubTrace\nimport Copia.Model.HubGetSolo\nimport Copia.Model.Hub\nimport Copia.Model.HubLock\nimport Copia.Model.HexSupport", "open Copia.HubConc (Call Chunk Hash)\nopen Copia.HubGet (GCall)\nopen Copia.HubLock (LockCall)"),
     "deliver": ("import Copia.Model.Deliver", "open Copia.Deliver (DStep)"),
+    "oneway": ("import Copia.Model.OneWay\nimport Copia.Gen.LoopsPlan", ""),
     "crash": ("import Copia.Model.Crash", "open Copia.Crash (Side FsStep)"),
     "delta": ("import Copia.Model.DeltaSupport",
               "open Copia.Delta Copia.DeltaSupport\nopen Copia.Checksum (Fast)"),
 }
 
-GROUPS = {"reconcile": "LoopsReconcile.lean", "plan": "LoopsPlan.lean", "bidir": "LoopsBidir.lean", "delta": "LoopsDelta.lean", "hub": "LoopsHub.lean", "hubsync": "LoopsHubSync.lean", "hubput": "LoopsHubPut.lean", "wire": "LoopsWire.lean", "archive": "LoopsArchive.lean", "scan": "LoopsScan.lean", "codec": "LoopsCodec.lean", "crash": "LoopsCrash.lean", "deliver": "LoopsDeliver.lean"}
+GROUPS = {"reconcile": "LoopsReconcile.lean", "plan": "LoopsPlan.lean", "bidir": "LoopsBidir.lean", "delta": "LoopsDelta.lean", "hub": "LoopsHub.lean", "hubsync": "LoopsHubSync.lean", "hubput": "LoopsHubPut.lean", "wire": "LoopsWire.lean", "archive": "LoopsArchive.lean", "scan": "LoopsScan.lean", "codec": "LoopsCodec.lean", "crash": "LoopsCrash.lean", "deliver": "LoopsDeliver.lean", "oneway": "LoopsOneWay.lean"}
 
 
 def translate(group):
